@@ -49,7 +49,7 @@ func (l *DeadlineLimiter) tryAcquire(ctx context.Context) (listener core.Listene
 		}
 
 		// if the deadline has passed, fail quickly
-		if time.Now().UTC().After(l.deadline) {
+		if !time.Now().UTC().Before(l.deadline) {
 			return nil, false
 		}
 
